@@ -21,6 +21,9 @@ func propC09(r *Report, tier string) {
 	ruleResultMerges(r, "K9b-result-merge")
 	ruleHitsInCurrentPage(r, "K5-page-after-sort")
 	rulePageTrimCoversSizeZero(r, "K5-page-trim-covers-size-zero")
+	// the alias decides from ExtractFields whether the synonym / bm25 pre-search phase is needed
+	ruleCompoundSwitchCoverage(r, "K13-compound-coverage")
+	ruleAccumulatingWalkVisitsWholeTree(r, "K13-accumulating-walk-whole-tree", "search/query")
 	ruleMergeAccumulates(r, "K9b-merge-accumulates", "search.(FieldTermSynonymMap).MergeWith", "search.(*FacetResult).Merge", "search.(FacetResults).Merge")
 	r.Floor("K9b-member-request-carries-all", 12)
 	r.Floor("K6-copy-isolation", 2)
